@@ -117,10 +117,34 @@ def run_case(case):
                 def rf(ri=ri, reads=reads, t=tabs[ri]):
                     for qi, spec in enumerate(reads):
                         a = sch.global_steps
+                        restore = None
+                        if spec.get("fault") and sc["topology"] != "shared":
+                            # one transient error on this reader's k-th storage call that touches the pointer
+                            stg, me, left = t.storage, sch.me(), [spec["fault"]]
+                            origs = {m: getattr(stg, m) for m in ("read_file", "exists")}
+
+                            def mk(m):
+                                def f(path, *a_, **k_):
+                                    if path == HINT and sch.me() is me and left[0] > 0:
+                                        left[0] -= 1
+                                        if left[0] == 0:
+                                            left[0] = -1
+                                            raise OSError(5, "injected transient pointer read error")
+                                    return origs[m](path, *a_, **k_)
+
+                                return f
+
+                            for m in origs:
+                                setattr(stg, m, mk(m))
+                            restore = (stg, origs)
                         try:
                             r = do_read(t, spec)
                         except Exception as e:  # noqa
                             r = ("raise", e)
+                        finally:
+                            if restore:
+                                for m, o in restore[1].items():
+                                    setattr(restore[0], m, o)
                         reads_log.append((ri, qi, a, sch.global_steps, r, spec))
                     return True
 
@@ -163,6 +187,11 @@ def run_case(case):
                 out["labels"].append("flip-inside-read")
                 out["nontrivial"] = True
             tag = f"{spec['api']}"
+            if r[0] == "raise" and spec.get("fault") and isinstance(r[1], OSError):
+                out["labels"].append("faulted-read-raised")  # fail closed: allowed
+                continue
+            if spec.get("fault"):
+                out["labels"].append("faulted-read-returned")
             if r[0] == "raise":
                 out["violations"].append((f"read-raised/{type(r[1]).__name__}", f"reader {ri} read {qi} ({spec}) over steps [{a},{b}] raised {type(r[1]).__name__}: {str(r[1])[:160]}"))
                 continue
@@ -190,8 +219,8 @@ def run_case(case):
     return out
 
 
-def read_spec(draw=None, api="scan", flt=None, cols=None, verify=None):
-    return {"api": api, "filter": flt, "columns": cols, "verify": verify}
+def read_spec(draw=None, api="scan", flt=None, cols=None, verify=None, fault=0):
+    return {"api": api, "filter": flt, "columns": cols, "verify": verify, "fault": fault}
 
 
 FIXED = [
@@ -201,6 +230,8 @@ FIXED = [
     {"world": "s3cas", "topology": "separate", "nprior": 1, "readers": [[read_spec(api="scan", verify=False), read_spec(api="scan_par2")]], "writers": [{"op": "append"}]},
     {"world": "local", "topology": "separate", "nprior": 1, "readers": [[read_spec(api="scan", cols=["k"])]], "writers": [{"op": "failing"}]},
     {"world": "s3cas", "topology": "separate", "nprior": 0, "readers": [[read_spec(api="row_count"), read_spec(api="batches3")]], "writers": [{"op": "multi"}]},
+    {"world": "local", "topology": "separate", "nprior": 2, "readers": [[read_spec(api="scan", fault=1), read_spec(api="row_count", fault=2)]], "writers": [{"op": "append"}]},
+    {"world": "local", "topology": "separate", "nprior": 1, "readers": [[read_spec(api="iter_records", fault=3), read_spec(api="scan")]], "writers": [{"op": "failing"}, {"op": "append"}]},
 ]
 
 
@@ -239,7 +270,7 @@ def pct_case(draw):
             api = draw(st.sampled_from(READ_APIS))
             flt = draw(st.sampled_from([None, None, {"k": (">=", 1)}, {"s": ("!=", "w0")}, {"k": ("<", 250)}])) if api != "row_count" else None
             cols = draw(st.sampled_from([None, None, ["k"], ["s"]])) if api != "row_count" else None
-            reads.append(read_spec(api=api, flt=flt, cols=cols, verify=draw(st.sampled_from([None, False]))))
+            reads.append(read_spec(api=api, flt=flt, cols=cols, verify=draw(st.sampled_from([None, False])), fault=draw(st.sampled_from([0, 0, 0, 1, 2, 3]))))
         readers.append(reads)
     writers = [{"op": draw(st.sampled_from(["append", "multi", "delete", "rollback", "failing"])), "which": draw(st.integers(0, 2))} for _ in range(draw(st.integers(1, 3)))]
     n = len(readers) + len(writers)
